@@ -3,10 +3,10 @@
 # Rebuilds the harness (and with it /repo's current working tree, hooks on) and runs it.
 cd "$(dirname "$0")" || exit 2
 export CARGO_NET_OFFLINE=true
-if ! cargo build --release -p harness --offline -q 2>/verif/target/build.log; then
+if ! cargo build --release -p harness -p ldpc-toolbox --offline -q 2>/verif/target/build.log; then
     # first attempt may race with target dir creation
     mkdir -p /verif/target
-    if ! cargo build --release -p harness --offline -q 2>/verif/target/build.log; then
+    if ! cargo build --release -p harness -p ldpc-toolbox --offline -q 2>/verif/target/build.log; then
         echo "HARNESS-ERROR: build failed (see /verif/target/build.log)" >&2
         tail -30 /verif/target/build.log >&2
         exit 2
